@@ -225,15 +225,56 @@ func (w *c02World) evalAgg(st *c02Streams, a *c02Agg, mut string, honest bool) {
 						ag := a.obj
 						prop := &hotstuff.ProposeMsg{ID: 1, Block: blk, AggregateQC: &ag}
 						au2 := w.auth(0, cache, aggOn)
-						oa := c02Run(func() error { return au2.VerifyAnyQC(prop) })
-						m2 := w.meta("anyqc", mut, a.term, vi, cache, oa)
-						m2["block_qc"], m2["aggqc_enabled"] = bq.term, aggOn
-						w.v.Seen(fmt.Sprintf("any|%s|%d|%s|%s|%v|%v", w.scheme, w.n, a.term, bq.term, cache, aggOn), true, nil)
-						w.v.Count("anyqc:" + oa)
-						// soundness: an accepted proposal's block QC is a valid QC
 						t, cl := w.qcTruth(bq)
-						w.oracle(!(oa == "ok" && !t), "anyqc:accepted:"+cl, "VerifyAnyQC accepted a proposal whose block QC is not valid: "+cl, m2)
-						w.v.Case(st.any, fmt.Sprintf("(%s,%s,%s,%s,%s,(Some %s),%s)", w.cfgTerm(aggOn), w.vctxTerm(), w.storeTm, w.sdTerm(bq, a), bq.term, a.term, c02Obs(oa)), m2)
+						// must this proposal be accepted?  Yes if the aggregate verifies, the block QC is valid and EVERY
+						// highest-view valid QC attested in the aggregate certifies the block QC's block and view —
+						// whichever of them VerifyAggregateQC returns (the choice follows Go's map iteration order)
+						must, ties := aggOn && o == "ok" && t && w.goValid(0, bq), 0 // the block QC verifies on its own
+						if must {
+							top := uint64(0)
+							for _, k := range c02SortedKeys(a.qcs) {
+								if pq := a.qcs[k]; w.goValid(0, pq) && pq.view > top {
+									top = pq.view
+								}
+							}
+							seenDig := map[uint64]bool{}
+							for _, k := range c02SortedKeys(a.qcs) {
+								pq := a.qcs[k]
+								if pq.view == top && w.goValid(0, pq) {
+									if !seenDig[pq.dig] {
+										seenDig[pq.dig] = true
+										ties++
+									}
+									must = must && pq.hash == bq.hash && pq.view == bq.view
+								}
+							}
+							w.auth(0, cache, aggOn) // goValid moved the verifier marker; restore it
+						}
+						reps := 1
+						if must && ties >= 2 {
+							reps = 12 // several admissible high QCs: the verdict must not depend on the one picked
+						}
+						first := ""
+						for rep := 0; rep < reps; rep++ {
+							oa := c02Run(func() error { return au2.VerifyAnyQC(prop) })
+							m2 := w.meta("anyqc", mut, a.term, vi, cache, oa)
+							m2["block_qc"], m2["aggqc_enabled"], m2["repetition"], m2["distinct_highest_valid_qcs"] = bq.term, aggOn, rep, ties
+							w.v.Seen(fmt.Sprintf("any|%s|%d|%s|%s|%v|%v", w.scheme, w.n, a.term, bq.term, cache, aggOn), true, nil)
+							w.v.Count("anyqc:" + oa)
+							// soundness: an accepted proposal's block QC is a valid QC
+							w.oracle(!(oa == "ok" && !t), "anyqc:accepted:"+cl, "VerifyAnyQC accepted a proposal whose block QC is not valid: "+cl, m2)
+							if must {
+								w.v.Count("anyqc:must-accept")
+								w.oracle(oa == "ok", "anyqc:valid-highest-block-qc-rejected",
+									"VerifyAnyQC rejected a proposal whose block QC is a valid certificate for the block and view of every highest-view valid QC attested in its (verifying) aggregate QC: "+oa, m2)
+							}
+							if rep == 0 || oa != first {
+								w.v.Case(st.any, fmt.Sprintf("(%s,%s,%s,%s,%s,(Some %s),%s)", w.cfgTerm(aggOn), w.vctxTerm(), w.storeTm, w.sdTerm(bq, a), bq.term, a.term, c02Obs(oa)), m2)
+							}
+							if rep == 0 {
+								first = oa
+							}
+						}
 					}
 				}
 			}
@@ -276,6 +317,10 @@ func c02AggStream(w *c02World, st *c02Streams) {
 	w.evalAgg(st, build(N, v, cyc(q2, qBad5, q1)), "highest-invalid-falls-through", n >= 3)
 	w.evalAgg(st, build(Q, v, all(qBad5)), "all-qcs-invalid", false)
 	w.evalAgg(st, build(N, v, cyc(q2, q2b, q2alt)), "highest-tie", true)
+	// two different valid QCs for the SAME block and view (other signer subset, other bytes), plus lower ones:
+	// VerifyAggregateQC may return either; a proposal carrying either as block QC must be accepted every time
+	w.evalAgg(st, build(N, v, cyc(q2, q2alt)), "same-block-tie", true)
+	w.evalAgg(st, build(N, v, cyc(q2alt, q1, q2, gQC)), "same-block-tie-with-lower", true)
 	w.evalAgg(st, build(N, v, cyc(q2, qH)), "extreme-view-highest", true)
 	// the order in which VerifyAggregateQC sees the QCs comes from Go's map iteration: repeat
 	for rep := 0; rep < 5; rep++ {
